@@ -96,4 +96,692 @@ theorem zinv_applyUpd {z : St (shadowOps O zme)} (h : ZInv z) (k : Nat) (hk : k 
     · rw [h1]; exact hk
     · exact h.noz kc (List.mem_filter.1 h1).1
 
+
+/-! ### the complaint a participant broadcasts, as a delivery at the shadow -/
+
+/-- the participant's own entry carries the `received` flag: its complaint has been built and broadcast -/
+def recvOf : Option Complaint → Bool
+  | some c => c.received
+  | none => false
+
+def ownRecv (s : St O) : Bool := recvOf (s.find s.me)
+
+def cmplMsg (d : Nat) : Bytes := [tagComplaint, UInt8.ofNat d]
+
+/-- the broadcast complaint of participant `k` against the dealer, as a delivery -/
+def zCmpl (k d : Nat) : Dl := .bcast k (cmplMsg d)
+
+theorem zstep_cmpl (z : St (shadowOps O zme)) (zi : ZInv z) (k : Nat) (hk : k < z.size) (hkd : k ≠ z.dealer)
+    (hdq : z.disqualified = false) (hct : z.complaintsTimeout = false) :
+    step z (zCmpl k z.dealer) = rcOk z k := by
+  have hme : z.me ≠ z.dealer := by rw [zi.me]; have := zi.hdealer; have := zi.hsize; omega
+  rw [step_classify z _ hme hdq]
+  have hzk : z.me ≠ k := by rw [zi.me]; have := zi.hsize; omega
+  have hb : (UInt8.ofNat z.dealer).toNat = z.dealer := by
+    have := zi.hdealer; have := zi.hbyte
+    simp [UInt8.toNat_ofNat']; omega
+  have hp : parseC z [UInt8.ofNat z.dealer] = some z.dealer := by
+    unfold parseC
+    simp only [List.length_singleton, ne_eq, not_true_eq_false, if_false, List.headD_cons, hb]
+    have := zi.hdealer
+    rw [if_neg (by omega)]
+  show interp z (classifyB z k (cmplMsg z.dealer)) = rcOk z k
+  unfold classifyB cmplMsg
+  rw [if_neg hzk]
+  simp only [List.length_cons, List.length_nil, Nat.add_eq_zero_iff, if_false, List.headD_cons,
+    List.drop_succ_cons, List.drop_zero, hct, Bool.false_eq_true]
+  rw [if_neg (by decide), if_pos trivial, hp]
+  simp only [hkd, if_false, ne_eq, not_true_eq_false]
+  rfl
+
+/-- **the participant's own complaint is, publicly, the complaint the others receive**: building the complaint
+    at `t` and delivering it to the shadow lead to the same public state -/
+theorem pub_buildComplaint {t : St O} {z : St (shadowOps O zme)} (h : PubEq t z) (zi : ZInv z)
+    (hdq : t.disqualified = false) (hvok : VecOK t) (hme : t.me < t.size) (hmd : t.me ≠ t.dealer)
+    (hct : t.complaintsTimeout = false) :
+    PubEq (FvssQ.buildComplaint t).1 (if ownRecv t then z else step z (zCmpl t.me t.dealer)) ∧
+    ZInv (if ownRecv t then z else step z (zCmpl t.me t.dealer)) := by
+  have hmz : t.me ≠ zme := by have := zi.hsize; rw [← h.size] at this; omega
+  rw [bc_upd]
+  by_cases ho : ownRecv t = true
+  · rw [if_pos ho]
+    refine ⟨?_, zi⟩
+    unfold ownRecv at ho
+    cases hf : t.find t.me with
+    | none => rw [hf] at ho; cases ho
+    | some c =>
+      rw [hf] at ho
+      change c.received = true at ho
+      have : bcU (some c) (t.vAReceived && t.vA.isSome) (t.checkComplaint t.me) = {} := by
+        unfold bcU; simp only [ho, if_true]
+      rw [this, applyUpd_empty]
+      exact h
+  · rw [if_neg ho]
+    have hzd : z.disqualified = false := by rw [← h.disq]; exact hdq
+    have hzc : z.complaintsTimeout = false := by rw [← h.ct]; exact hct
+    rw [h.dealer, zstep_cmpl z zi t.me (by rw [← h.size]; exact hme) (by rw [← h.dealer]; exact hmd) hzd hzc, rcOk_upd]
+    refine ⟨?_, zinv_applyUpd zi _ hmz _⟩
+    rw [← h.find, ← h.vAR, ← h.ccf t.me hmz]
+    unfold ownRecv at ho
+    cases hf : t.find t.me with
+    | none => exact pub_applyUpd h _ _ _ rfl rfl
+    | some c =>
+      rw [hf] at ho
+      change ¬ c.received = true at ho
+      have hr : c.received = false := by simpa using ho
+      unfold bcU rcU
+      simp only [hr, Bool.false_eq_true, if_false]
+      by_cases har : c.answerReceived = true
+      · simp only [har, if_true, and_true]
+        by_cases hv : t.vAReceived = true
+        · have hsome : t.vA.isSome = true := hvok hv hdq
+          simp only [hv, hsome, Bool.and_self, if_true]
+          by_cases hc : t.checkComplaint t.me (recv c) = true
+          · simp only [hc, if_true]
+            exact pub_applyUpd h _ _ _ rfl rfl
+          · have hc' : t.checkComplaint t.me (recv c) = false := by simpa using hc
+            simp only [hc', Bool.false_eq_true, if_false]
+            exact pub_applyUpd h _ _ _ rfl rfl
+        · have hv' : t.vAReceived = false := by simpa using hv
+          simp only [hv', Bool.false_and, Bool.false_eq_true, if_false]
+          exact pub_applyUpd h _ _ _ rfl rfl
+      · have har' : c.answerReceived = false := by simpa using har
+        simp only [har', Bool.false_eq_true, if_false, and_false]
+        exact pub_applyUpd h _ _ _ rfl rfl
+
+
+/-! ### frames -/
+
+theorem pub_congr {a a' : St O} {z z' : St (shadowOps O zme)} (h : PubEq a z)
+    (a1 : a'.size = a.size) (a2 : a'.threshold = a.threshold) (a3 : a'.dealer = a.dealer)
+    (z1 : z'.size = z.size) (z2 : z'.threshold = z.threshold) (z3 : z'.dealer = z.dealer)
+    (h4 : a'.disqualified = z'.disqualified) (h5 : a'.vAReceived = z'.vAReceived) (h6 : a'.vA = z'.vA)
+    (h7 : a'.complaints = z'.complaints) (h8 : a'.sharesTimeout = z'.sharesTimeout)
+    (h9 : a'.complaintsTimeout = z'.complaintsTimeout) : PubEq a' z' :=
+  ⟨by rw [a1, z1]; exact h.size, by rw [a2, z2]; exact h.threshold, by rw [a3, z3]; exact h.dealer, h4, h5, h6, h7, h8, h9⟩
+
+theorem zinv_congr {z z' : St (shadowOps O zme)} (h : ZInv z) (h1 : z'.me = z.me) (h2 : z'.xReceived = z.xReceived)
+    (h3 : z'.complaints = z.complaints) (h4 : z'.size = z.size) (h5 : z'.dealer = z.dealer) : ZInv z' :=
+  ⟨by rw [h1]; exact h.me, by rw [h2]; exact h.xr, by rw [h3]; exact h.noz, by rw [h4]; exact h.hsize,
+    by rw [h4, h5]; exact h.hdealer, by rw [h4]; exact h.hbyte⟩
+
+/-- invariants of the real participant used by the simulation -/
+structure AInv (a : St O) : Prop where
+  inv : Inv a
+  melt : a.me < a.size
+  tmo : a.complaintsTimeout = true → a.sharesTimeout = true
+
+theorem ownRecv_congr {s t : St O} (h1 : t.me = s.me) (h2 : t.complaints = s.complaints) : ownRecv t = ownRecv s := by
+  unfold ownRecv St.find; rw [h1, h2]
+
+theorem ownRecv_bc (t : St O) : ownRecv (FvssQ.buildComplaint t).1 = true := by
+  obtain ⟨c, hc, hr⟩ := Proofs.DkgCommute.own_after_bc t
+  unfold ownRecv
+  rw [(bc_cfg t).1, hc]
+  exact hr
+
+/-- the deliveries the shadow sees for the complaint `a` may have emitted while moving to `a'` -/
+def emitted (a a' : St O) : List Dl := if !ownRecv a && ownRecv a' then [zCmpl a.me a.dealer] else []
+
+/-- a step of the real participant that ends in `buildComplaint` -/
+theorem shadow_bc {a t : St O} {z' : St (shadowOps O zme)} (h : PubEq t z') (zi : ZInv z')
+    (hdq : t.disqualified = false) (hvok : VecOK t) (hme : t.me < t.size) (hmd : t.me ≠ t.dealer)
+    (hct : t.complaintsTimeout = false) (h1 : t.me = a.me) (h2 : t.dealer = a.dealer)
+    (h3 : t.complaints = a.complaints) :
+    PubEq (FvssQ.buildComplaint t).1 (runList z' (emitted a (FvssQ.buildComplaint t).1)) ∧
+    ZInv (runList z' (emitted a (FvssQ.buildComplaint t).1)) := by
+  have hb := pub_buildComplaint h zi hdq hvok hme hmd hct
+  have ho : ownRecv t = ownRecv a := ownRecv_congr h1 h3
+  unfold emitted
+  rw [ownRecv_bc, ← ho, ← h1, ← h2]
+  by_cases hr : ownRecv t = true
+  · rw [if_pos hr] at hb
+    simp only [hr, Bool.not_true, Bool.false_and, Bool.false_eq_true, if_false]
+    exact hb
+  · rw [if_neg hr] at hb
+    have hr' : ownRecv t = false := by simpa using hr
+    simp only [hr', Bool.not_false, Bool.true_and, if_true]
+    exact hb
+
+
+/-! ### the shadow classifies a broadcast like the real participant -/
+
+theorem classifyB_pub {a : St O} {z : St (shadowOps O zme)} (h : PubEq a z) (o : Nat) (m : Bytes)
+    (hao : a.me ≠ o) (hzo : z.me ≠ o) : classifyB z o m = classifyB a o m := by
+  unfold classifyB parseC parseA
+  rw [if_neg hao, if_neg hzo, ← h.dealer, ← h.size, ← h.ct]
+
+theorem classifyB_cmpl (s : St O) (o : Nat) (m : Bytes) (k : Nat) (h : classifyB s o m = .cmpl k) : k = o := by
+  unfold classifyB at h
+  repeat' (first | split at h | (simp only [] at h; split at h))
+  all_goals first | (cases h; rfl) | cases h
+
+theorem classifyB_vec (s : St O) (o : Nat) (m : Bytes) (d : Bytes) (h : classifyB s o m = .vec d) : o = s.dealer := by
+  unfold classifyB at h
+  repeat' (first | split at h | (simp only [] at h; split at h))
+  all_goals first | assumption | cases h
+
+theorem parseA_lt (s : St O) (data : Bytes) (j : Nat) (sc : Option Nat) (hp : parseA s data = some (j, sc)) :
+    j < s.size := by
+  unfold parseA at hp
+  split at hp
+  · cases hp
+  · split at hp
+    · cases hp
+    · cases hp; omega
+
+theorem classifyB_ans (s : St O) (o : Nat) (m : Bytes) (j : Nat) (sc : Option Nat) (h : classifyB s o m = .ans j sc) :
+    j < s.size := by
+  unfold classifyB at h
+  repeat' (first | split at h | (simp only [] at h; split at h))
+  all_goals first | cases h | skip
+  rename_i hp
+  exact parseA_lt s _ j sc hp
+
+
+/-! ### one delivery at the real participant, and the matching deliveries at the shadow -/
+
+theorem raU_pub (fc : Option Complaint) (v : Bool) (chk : Complaint → Bool) (d1 m1 d2 m2 : Bool) (sc : Option Nat) :
+    (raU fc v chk d1 m1 sc).entry = (raU fc v chk d2 m2 sc).entry ∧
+    (raU fc v chk d1 m1 sc).disq = (raU fc v chk d2 m2 sc).disq := by
+  unfold raU
+  cases fc with
+  | none => cases sc <;> exact ⟨rfl, rfl⟩
+  | some c =>
+    simp only []
+    split
+    · exact ⟨rfl, rfl⟩
+    · split
+      · cases sc <;> exact ⟨rfl, rfl⟩
+      · exact ⟨rfl, rfl⟩
+
+theorem raU_recv (fc : Option Complaint) (v : Bool) (chk : Complaint → Bool) (d m : Bool) (sc : Option Nat)
+    (c : Complaint) (h : (raU fc v chk d m sc).entry = some c) :
+    c.received = recvOf fc := by
+  cases fc with
+  | none => exact raU_recv_none v chk d m sc c h
+  | some c0 => exact raU_recv_some c0 v chk d m sc c h
+
+/-- the public part of a delivery: what the shadow is given when the real participant processes `e` -/
+def pubPart (a : St O) : Dl → List Dl
+  | .bcast o m => if o = a.me then [] else [.bcast o m]
+  | .priv _ _ => []
+
+/-- the shadow's deliveries for one delivery at the real participant: the broadcast itself, then the participant's
+    complaint if this delivery made the participant emit it -/
+def zEvents (a : St O) (e : Dl) : List Dl := pubPart a e ++ emitted a (step a e)
+
+theorem pubPart_bcast (a : St O) (o : Nat) (m : Bytes) : pubPart a (.bcast o m) = if o = a.me then [] else [.bcast o m] := rfl
+theorem pubPart_priv (a : St O) (o : Nat) (m : Bytes) : pubPart a (.priv o m) = [] := rfl
+
+theorem runList_single (z : St O) (x : Dl) : runList z [x] = step z x := rfl
+
+theorem emitted_nil {a a' : St O} (h : ownRecv a' = ownRecv a) : emitted a a' = [] := by
+  unfold emitted
+  rw [h]
+  cases ownRecv a <;> rfl
+
+theorem any_congr_mem {α : Type} (l : List α) (p q : α → Bool) (h : ∀ x ∈ l, p x = q x) : l.any p = l.any q := by
+  induction l with
+  | nil => rfl
+  | cons x t ih =>
+    rw [List.any_cons, List.any_cons, h x (List.mem_cons_self), ih (fun y hy => h y (List.mem_cons_of_mem _ hy))]
+
+theorem anyBad_pub {a : St O} {z : St (shadowOps O zme)} (h : PubEq a z) (zi : ZInv z) (v : O.Vec) :
+    anyBad (setVec a v) = anyBad (setVec z v) := by
+  unfold anyBad
+  rw [setVec_complaints, setVec_complaints, h.tbl]
+  apply any_congr_mem
+  intro kc hkc
+  have hk : kc.1 ≠ zme := zi.noz kc hkc
+  unfold entryBad
+  rw [cc_setVec, cc_setVec]
+  simp [hk]
+
+theorem ownRecv_applyUpd_other (s : St O) (k : Nat) (u : Upd) (hk : s.me ≠ k) : ownRecv (applyUpd s k u) = ownRecv s := by
+  unfold ownRecv
+  rw [(applyUpd_vA s k u).2.2.1, find_applyUpd_other s s.me k u hk]
+
+
+theorem classifyB_share (s : St O) (o : Nat) (m : Bytes) (d : Bytes) : classifyB s o m ≠ .share d := by
+  intro h
+  unfold classifyB at h
+  repeat' (first | split at h | (simp only [] at h; split at h))
+  all_goals cases h
+
+theorem ownRecv_raOk (a : St O) (j : Nat) (v : Bool) (chk : Complaint → Bool) (d m : Bool) (sc : Option Nat) :
+    ownRecv (applyUpd a j (raU (a.find j) v chk d m sc)) = ownRecv a := by
+  by_cases hj : a.me = j
+  · subst hj
+    unfold ownRecv
+    rw [(applyUpd_vA a a.me _).2.2.1, find_applyUpd]
+    cases he : (raU (a.find a.me) v chk d m sc).entry with
+    | none => rfl
+    | some c =>
+      have hr := raU_recv _ _ _ _ _ _ c he
+      simp only [if_true]
+      exact hr
+  · exact ownRecv_applyUpd_other a j _ hj
+
+/-- **simulation step**: after any delivery at the real participant, its public state equals that of the shadow,
+    which was given the same broadcast and, if this delivery made the participant emit its complaint, that
+    complaint -/
+theorem shadow_step {a : St O} {z : St (shadowOps O zme)} (ai : AInv a) (zi : ZInv z) (h : PubEq a z) (e : Dl)
+    (he : e.sender < a.size) :
+    PubEq (step a e) (runList z (zEvents a e)) ∧ ZInv (runList z (zEvents a e)) := by
+  have hzme : z.me ≠ z.dealer := by rw [zi.me]; have := zi.hdealer; have := zi.hsize; omega
+  have hasz : a.size ≤ zme := by rw [h.size]; exact zi.hsize
+  have hamz : a.me ≠ zme := by have := ai.melt; omega
+  by_cases hd : a.disqualified = true
+  · have hzd : z.disqualified = true := by rw [← h.disq]; exact hd
+    unfold zEvents
+    rw [step_disq a e hd ai.inv.hme, emitted_nil rfl, List.append_nil]
+    cases e with
+    | priv o m => exact ⟨h, zi⟩
+    | bcast o m =>
+      rw [pubPart_bcast]
+      by_cases ho : o = a.me
+      · rw [if_pos ho]; exact ⟨h, zi⟩
+      · rw [if_neg ho]
+        rw [runList_single, step_disq z _ hzd hzme]; exact ⟨h, zi⟩
+  · have hd' : a.disqualified = false := by simpa using hd
+    have hzd : z.disqualified = false := by rw [← h.disq]; exact hd'
+    have hctOf : a.sharesTimeout = false → a.complaintsTimeout = false := by
+      intro hst
+      cases hc : a.complaintsTimeout with
+      | false => rfl
+      | true => rw [ai.tmo hc] at hst; cases hst
+    cases e with
+    | priv o m =>
+      unfold zEvents
+      rw [pubPart_priv, List.nil_append, step_classify a _ ai.inv.hme hd']
+      have hcl : classify a (.priv o m) = (if a.me = o then .noop else if o = a.dealer then .share m else .noop) := rfl
+      rw [hcl]
+      by_cases ho : a.me = o
+      · rw [if_pos ho]
+        show PubEq a (runList z (emitted a a)) ∧ ZInv (runList z (emitted a a))
+        rw [emitted_nil rfl]; exact ⟨h, zi⟩
+      · rw [if_neg ho]
+        by_cases hod : o = a.dealer
+        · rw [if_pos hod]
+          show PubEq (FvssQ.receiveShare a a.dealer m).1 (runList z (emitted a (FvssQ.receiveShare a a.dealer m).1)) ∧
+            ZInv (runList z (emitted a (FvssQ.receiveShare a a.dealer m).1))
+          by_cases hn : a.sharesTimeout = true ∨ a.xReceived = true
+          · rw [rs_noop a a.dealer rfl m hn, emitted_nil rfl]; exact ⟨h, zi⟩
+          · have hst : a.sharesTimeout = false := by
+              cases hs : a.sharesTimeout with
+              | false => rfl
+              | true => exact absurd (Or.inl hs) hn
+            have hx : a.xReceived = false := by
+              cases hs : a.xReceived with
+              | false => rfl
+              | true => exact absurd (Or.inr hs) hn
+            rw [rs_eq a a.dealer rfl m hst hx]
+            cases parseShare O m with
+            | none =>
+              simp only []
+              exact shadow_bc (a := a) (t := markX a)
+                (pub_congr h rfl rfl rfl rfl rfl rfl h.disq h.vAR h.vA h.tbl h.st h.ct) zi hd' ai.inv.vecok
+                ai.melt ai.inv.hme (hctOf hst) rfl rfl rfl
+            | some x =>
+              simp only []
+              have hp' : PubEq (setX a x) z := pub_congr h rfl rfl rfl rfl rfl rfl h.disq h.vAR h.vA h.tbl h.st h.ct
+              unfold rsOk
+              by_cases hv : a.vAReceived = true
+              · rw [if_pos hv]
+                by_cases hl : (!(setX a x).verifyShare) = true
+                · rw [if_pos hl]
+                  exact shadow_bc (a := a) (t := setX a x) hp' zi hd' ai.inv.vecok ai.melt ai.inv.hme (hctOf hst) rfl rfl rfl
+                · rw [if_neg hl, emitted_nil (a := a) (a' := setX a x) (ownRecv_congr rfl rfl)]; exact ⟨hp', zi⟩
+              · rw [if_neg hv, emitted_nil (a := a) (a' := setX a x) (ownRecv_congr rfl rfl)]; exact ⟨hp', zi⟩
+        · rw [if_neg hod]
+          show PubEq a (runList z (emitted a a)) ∧ ZInv (runList z (emitted a a))
+          rw [emitted_nil rfl]; exact ⟨h, zi⟩
+    | bcast o m =>
+      have hos : o < a.size := he
+      by_cases ho : o = a.me
+      · unfold zEvents
+        rw [pubPart_bcast, if_pos ho]
+        have hs : step a (.bcast o m) = a := by
+          rw [step_classify a _ ai.inv.hme hd']
+          show interp a (classifyB a o m) = a
+          unfold classifyB; rw [if_pos ho.symm]; rfl
+        rw [hs, emitted_nil rfl]; exact ⟨h, zi⟩
+      · have hao : a.me ≠ o := fun x => ho x.symm
+        have hzo : z.me ≠ o := by rw [zi.me]; omega
+        have hoz : o ≠ zme := by omega
+        unfold zEvents
+        rw [pubPart_bcast, if_neg ho]
+        show PubEq (step a (.bcast o m)) (runList (step z (.bcast o m)) (emitted a (step a (.bcast o m)))) ∧
+          ZInv (runList (step z (.bcast o m)) (emitted a (step a (.bcast o m))))
+        rw [step_classify a _ ai.inv.hme hd', step_classify z _ hzme hzd]
+        show PubEq (interp a (classifyB a o m)) (runList (interp z (classifyB z o m)) (emitted a (interp a (classifyB a o m)))) ∧
+          ZInv (runList (interp z (classifyB z o m)) (emitted a (interp a (classifyB a o m))))
+        rw [classifyB_pub h o m hao hzo]
+        cases hK : classifyB a o m with
+        | noop =>
+          show PubEq a (runList z (emitted a a)) ∧ ZInv (runList z (emitted a a))
+          rw [emitted_nil rfl]; exact ⟨h, zi⟩
+        | disq =>
+          show PubEq (setDisq a true) (runList (setDisq z true) (emitted a (setDisq a true))) ∧
+            ZInv (runList (setDisq z true) (emitted a (setDisq a true)))
+          rw [emitted_nil (a := a) (a' := setDisq a true) (ownRecv_congr rfl rfl)]
+          exact ⟨pub_congr h rfl rfl rfl rfl rfl rfl rfl h.vAR h.vA h.tbl h.st h.ct, zinv_congr zi rfl rfl rfl rfl rfl⟩
+        | cmpl k =>
+          have hk := classifyB_cmpl a o m k hK
+          subst hk
+          show PubEq (rcOk a k) (runList (rcOk z k) (emitted a (rcOk a k))) ∧ ZInv (runList (rcOk z k) (emitted a (rcOk a k)))
+          rw [rcOk_upd a, rcOk_upd z, emitted_nil (ownRecv_applyUpd_other a _ _ hao)]
+          rw [← h.find, ← h.vAR, ← h.ccf _ hoz]
+          exact ⟨pub_applyUpd h _ _ _ rfl rfl, zinv_applyUpd zi _ hoz _⟩
+        | ans j sc =>
+          have hj : j < a.size := classifyB_ans a o m j sc hK
+          have hjz : j ≠ zme := by omega
+          show PubEq (raOk a j sc) (runList (raOk z j sc) (emitted a (raOk a j sc))) ∧
+            ZInv (runList (raOk z j sc) (emitted a (raOk a j sc)))
+          rw [raOk_upd a, raOk_upd z, emitted_nil (ownRecv_raOk a j _ _ _ _ sc)]
+          rw [← h.find, ← h.vAR, ← h.ccf _ hjz]
+          obtain ⟨e1, e2⟩ := raU_pub (a.find j) a.vAReceived (a.checkComplaint j) a.disqualified (decide (j = a.me))
+            z.disqualified (decide (j = z.me)) sc
+          exact ⟨pub_applyUpd h _ _ _ e1 e2, zinv_applyUpd zi _ hjz _⟩
+        | share d => exact absurd hK (classifyB_share a o m d)
+        | vec d =>
+          show PubEq (FvssQ.receiveVerifVector a a.dealer d).1
+              (runList (FvssQ.receiveVerifVector z z.dealer d).1 (emitted a (FvssQ.receiveVerifVector a a.dealer d).1)) ∧
+            ZInv (runList (FvssQ.receiveVerifVector z z.dealer d).1 (emitted a (FvssQ.receiveVerifVector a a.dealer d).1))
+          by_cases hn : a.sharesTimeout = true ∨ a.vAReceived = true
+          · have hnz : z.sharesTimeout = true ∨ z.vAReceived = true := by rw [← h.st, ← h.vAR]; exact hn
+            rw [rv_noop a a.dealer rfl d hn, rv_noop z z.dealer rfl d hnz, emitted_nil rfl]; exact ⟨h, zi⟩
+          · have hst : a.sharesTimeout = false := by
+              cases hs : a.sharesTimeout with
+              | false => rfl
+              | true => exact absurd (Or.inl hs) hn
+            have hv : a.vAReceived = false := by
+              cases hs : a.vAReceived with
+              | false => rfl
+              | true => exact absurd (Or.inr hs) hn
+            have hstz : z.sharesTimeout = false := by rw [← h.st]; exact hst
+            have hvz : z.vAReceived = false := by rw [← h.vAR]; exact hv
+            rw [rv_eq a a.dealer rfl d hst hv, rv_eq z z.dealer rfl d hstz hvz]
+            have hpv : parseVec z d = parseVec a d := by unfold parseVec; rw [← h.threshold, ← h.size]
+            rw [hpv]
+            cases parseVec a d with
+            | none =>
+              simp only []
+              rw [emitted_nil (a := a) (a' := vecBad a) (ownRecv_congr rfl rfl)]
+              exact ⟨pub_congr h rfl rfl rfl rfl rfl rfl rfl rfl h.vA h.tbl h.st h.ct, zinv_congr zi rfl rfl rfl rfl rfl⟩
+            | some v =>
+              simp only []
+              have hp' : PubEq (setVec a v) (setVec z v) := pub_congr h rfl rfl rfl rfl rfl rfl h.disq rfl rfl h.tbl h.st h.ct
+              have zi' : ZInv (setVec z v) := zinv_congr zi rfl rfl rfl rfl rfl
+              have hzside : rvOk z v = if anyBad (setVec a v) then setDisq (setVec z v) true else setVec z v := by
+                unfold rvOk
+                rw [← anyBad_pub h zi v]
+                have hzv : (setVec z v).verifyShare = true := by rw [vs_setVec]; simp [zi.me]
+                rw [if_pos zi.xr, hzv]
+                rfl
+              rw [hzside]
+              unfold rvOk
+              by_cases hb : anyBad (setVec a v) = true
+              · rw [if_pos hb, if_pos hb, emitted_nil (a := a) (a' := setDisq (setVec a v) true) (ownRecv_congr rfl rfl)]
+                exact ⟨pub_congr h rfl rfl rfl rfl rfl rfl rfl rfl rfl h.tbl h.st h.ct, zinv_congr zi rfl rfl rfl rfl rfl⟩
+              · rw [if_neg hb, if_neg hb]
+                by_cases hx : a.xReceived = true
+                · rw [if_pos hx]
+                  by_cases hl : (!(setVec a v).verifyShare) = true
+                  · rw [if_pos hl]
+                    exact shadow_bc (a := a) (t := setVec a v) hp' zi' hd' (fun _ _ => rfl) ai.melt ai.inv.hme (hctOf hst)
+                      rfl rfl rfl
+                  · rw [if_neg hl, emitted_nil (a := a) (a' := setVec a v) (ownRecv_congr rfl rfl)]; exact ⟨hp', zi'⟩
+                · rw [if_neg hx, emitted_nil (a := a) (a' := setVec a v) (ownRecv_congr rfl rfl)]; exact ⟨hp', zi'⟩
+
+
+/-! ### invariants of the real participant along deliveries and timeouts -/
+
+theorem step_cfg (a : St O) (hme : a.me ≠ a.dealer) (e : Dl) : SameCfg a (step a e) := by
+  rw [step_run a e hme]; exact run_cfg a _
+
+theorem ainv_step {a : St O} (ai : AInv a) (e : Dl) : AInv (step a e) := by
+  have c := step_cfg a ai.inv.hme e
+  refine ⟨inv_step a ai.inv e, by rw [c.1, c.2.2.1]; exact ai.melt, ?_⟩
+  rw [c.2.2.2.2.1, c.2.2.2.2.2.1]; exact ai.tmo
+
+theorem tstep_me_size (a : St O) : (tstep a).me = a.me ∧ (tstep a).size = a.size ∧ (tstep a).dealer = a.dealer := by
+  rw [tstep_eq]
+  have hb := bc_cfg (stFlag a)
+  repeat' (first | split | (simp only []; split))
+  all_goals first | exact ⟨rfl, rfl, rfl⟩ | exact ⟨hb.1, hb.2.2.1, hb.2.1⟩
+
+theorem ainv_tstep {a : St O} (ai : AInv a) : AInv (tstep a) := by
+  have c := tstep_me_size a
+  exact ⟨inv_tstep a ai.inv, by rw [c.1, c.2.1]; exact ai.melt, fun _ => tstep_st a⟩
+
+/-- **simulation of the timeout**: the shadow takes the same timeout and is then given the complaint the
+    participant emits at the timeout (it lands in the next round) -/
+theorem shadow_tstep {a : St O} {z : St (shadowOps O zme)} (ai : AInv a) (zi : ZInv z) (h : PubEq a z) :
+    PubEq (tstep a) (runList (tstep z) (emitted a (tstep a))) ∧ ZInv (runList (tstep z) (emitted a (tstep a))) := by
+  rw [tstep_eq a, tstep_eq z, ← h.disq, ← h.st, ← h.vAR, ← h.tbl, ← h.threshold, zi.xr]
+  have pst : PubEq (stFlag a) (stFlag z) := pub_congr h rfl rfl rfl rfl rfl rfl h.disq h.vAR h.vA h.tbl rfl h.ct
+  have pct : PubEq (ctFlag a) (ctFlag z) := pub_congr h rfl rfl rfl rfl rfl rfl h.disq h.vAR h.vA h.tbl h.st rfl
+  have zst : ZInv (stFlag z) := zinv_congr zi rfl rfl rfl rfl rfl
+  have zct : ZInv (ctFlag z) := zinv_congr zi rfl rfl rfl rfl rfl
+  by_cases hd : a.disqualified = true
+  · rw [if_pos hd, if_pos hd]
+    by_cases hst : (!a.sharesTimeout) = true
+    · rw [if_pos hst, if_pos hst, emitted_nil (a := a) (a' := stFlag a) (ownRecv_congr rfl rfl)]; exact ⟨pst, zst⟩
+    · rw [if_neg hst, if_neg hst, emitted_nil (a := a) (a' := ctFlag a) (ownRecv_congr rfl rfl)]; exact ⟨pct, zct⟩
+  · have hd' : a.disqualified = false := by simpa using hd
+    rw [if_neg hd, if_neg hd]
+    by_cases hst : (!a.sharesTimeout) = true
+    · rw [if_pos hst, if_pos hst]
+      have hst' : a.sharesTimeout = false := by simpa using hst
+      by_cases hv : (!a.vAReceived) = true
+      · rw [if_pos hv, if_pos hv, emitted_nil (a := a) (a' := setDisq (stFlag a) true) (ownRecv_congr rfl rfl)]
+        exact ⟨pub_congr h rfl rfl rfl rfl rfl rfl rfl h.vAR h.vA h.tbl rfl h.ct, zinv_congr zi rfl rfl rfl rfl rfl⟩
+      · rw [if_neg hv, if_neg hv]
+        simp only [Bool.not_true, Bool.false_eq_true, if_false]
+        by_cases hx : (!a.xReceived) = true
+        · rw [if_pos hx]
+          have hct : a.complaintsTimeout = false := by
+            cases hc : a.complaintsTimeout with
+            | false => rfl
+            | true => rw [ai.tmo hc] at hst'; cases hst'
+          exact shadow_bc (a := a) (t := stFlag a) pst zst hd' ai.inv.vecok ai.melt ai.inv.hme hct rfl rfl rfl
+        · rw [if_neg hx, emitted_nil (a := a) (a' := stFlag a) (ownRecv_congr rfl rfl)]; exact ⟨pst, zst⟩
+    · rw [if_neg hst, if_neg hst]
+      by_cases hl : a.complaints.length > a.threshold
+      · rw [if_pos hl, if_pos hl, emitted_nil (a := a) (a' := setDisq (ctFlag a) true) (ownRecv_congr rfl rfl)]
+        exact ⟨pub_congr h rfl rfl rfl rfl rfl rfl rfl h.vAR h.vA h.tbl h.st rfl, zinv_congr zi rfl rfl rfl rfl rfl⟩
+      · rw [if_neg hl, if_neg hl, emitted_nil (a := a) (a' := ctFlag a) (ownRecv_congr rfl rfl)]; exact ⟨pct, zct⟩
+
+/-! ### whole rounds -/
+
+/-- the shadow's schedule for a round of the real participant -/
+def zSched (a : St O) : List Dl → List Dl
+  | [] => []
+  | e :: l => zEvents a e ++ zSched (step a e) l
+
+theorem runList_append (s : St O) (l1 l2 : List Dl) : runList s (l1 ++ l2) = runList (runList s l1) l2 := by
+  unfold runList; rw [List.foldl_append]
+
+theorem runList_size (a : St O) (hme : a.me ≠ a.dealer) (inv : Inv a) (l : List Dl) : (runList a l).size = a.size := by
+  induction l generalizing a with
+  | nil => rfl
+  | cons e t ih =>
+    show (runList (step a e) t).size = a.size
+    have c := step_cfg a hme e
+    rw [ih (step a e) (by rw [c.1, c.2.1]; exact hme) (inv_step a inv e), c.2.2.1]
+
+theorem shadow_run {a : St O} {z : St (shadowOps O zme)} (ai : AInv a) (zi : ZInv z) (h : PubEq a z) (l : List Dl)
+    (hl : ∀ e ∈ l, e.sender < a.size) :
+    PubEq (runList a l) (runList z (zSched a l)) ∧ ZInv (runList z (zSched a l)) := by
+  induction l generalizing a z with
+  | nil => exact ⟨h, zi⟩
+  | cons e t ih =>
+    show PubEq (runList (step a e) t) (runList z (zEvents a e ++ zSched (step a e) t)) ∧
+      ZInv (runList z (zEvents a e ++ zSched (step a e) t))
+    rw [runList_append]
+    obtain ⟨p1, z1⟩ := shadow_step ai zi h e (hl e (List.mem_cons_self))
+    have c := step_cfg a ai.inv.hme e
+    exact ih (ainv_step ai e) z1 p1 (fun x hx => by rw [c.2.2.1]; exact hl x (List.mem_cons_of_mem _ hx))
+
+
+/-- the shadow's three rounds for the three rounds of the real participant: a complaint emitted at a timeout is
+    delivered at the start of the next round -/
+def zR1 (a : St O) (r1 : List Dl) : List Dl := zSched a r1
+def zR2 (a : St O) (r1 r2 : List Dl) : List Dl :=
+  emitted (runList a r1) (tstep (runList a r1)) ++ zSched (tstep (runList a r1)) r2
+def zR3 (a : St O) (r1 r2 r3 : List Dl) : List Dl :=
+  emitted (runList (tstep (runList a r1)) r2) (tstep (runList (tstep (runList a r1)) r2)) ++
+    zSched (tstep (runList (tstep (runList a r1)) r2)) r3
+
+theorem ainv_runList {a : St O} (ai : AInv a) (l : List Dl) : AInv (runList a l) := by
+  induction l generalizing a with
+  | nil => exact ai
+  | cons e t ih => exact ih (ainv_step ai e)
+
+/-- **the public state of a participant at the end of the three rounds is that of its shadow** -/
+theorem shadow_final {a : St O} {z : St (shadowOps O zme)} (ai : AInv a) (zi : ZInv z) (h : PubEq a z)
+    (r1 r2 r3 : List Dl) (h1 : ∀ e ∈ r1, e.sender < a.size) (h2 : ∀ e ∈ r2, e.sender < a.size)
+    (h3 : ∀ e ∈ r3, e.sender < a.size) :
+    PubEq (final a r1 r2 r3) (final z (zR1 a r1) (zR2 a r1 r2) (zR3 a r1 r2 r3)) := by
+  unfold final zR1 zR2 zR3
+  obtain ⟨p1, z1⟩ := shadow_run ai zi h r1 h1
+  have a1 := ainv_runList ai r1
+  obtain ⟨p1', z1'⟩ := shadow_tstep a1 z1 p1
+  have a1' := ainv_tstep a1
+  have s1 : (tstep (runList a r1)).size = a.size := by
+    rw [(tstep_me_size _).2.1, runList_size a ai.inv.hme ai.inv r1]
+  obtain ⟨p2, z2⟩ := shadow_run a1' z1' p1' r2 (by rw [s1]; exact h2)
+  have a2 := ainv_runList a1' r2
+  obtain ⟨p2', z2'⟩ := shadow_tstep a2 z2 p2
+  have a2' := ainv_tstep a2
+  have s2 : (tstep (runList (tstep (runList a r1)) r2)).size = a.size := by
+    rw [(tstep_me_size _).2.1, runList_size _ a1'.inv.hme a1'.inv r2, s1]
+  obtain ⟨p3, _⟩ := shadow_run a2' z2' p2' r3 (by rw [s2]; exact h3)
+  rw [runList_append, runList_append]
+  exact p3
+
+
+/-! ### the public result of `End`, and agreement -/
+
+theorem final_relP (s : St O) (inv : Inv s) (r1 r1' r2 r2' r3 r3' : List Dl)
+    (h1 : ∀ c, stream r1 c = stream r1' c) (h2 : ∀ c, stream r2 c = stream r2' c)
+    (h3 : ∀ c, stream r3 c = stream r3' c) : RelP (final s r1 r2 r3) (final s r1' r2' r3') := by
+  unfold final
+  have a1 := round_independent s inv r1 r1' (swaps_of_streams r1 r1' h1)
+  have i1 := inv_runList s inv r1
+  have i1' := inv_runList s inv r1'
+  have b1 := relP_tstep a1 i1.nodup
+  have j1 := inv_tstep _ i1
+  have j1' := inv_tstep _ i1'
+  have a2 : RelP (runList (tstep (runList s r1)) r2) (runList (tstep (runList s r1')) r2') :=
+    (relP_runList b1 j1 j1' r2).trans' (round_independent _ j1' r2 r2' (swaps_of_streams r2 r2' h2))
+  have i2 := inv_runList _ j1 r2
+  have i2' := inv_runList _ j1' r2'
+  have b2 := relP_tstep a2 i2.nodup
+  have j2 := inv_tstep _ i2
+  have j2' := inv_tstep _ i2'
+  exact (relP_runList b2 j2 j2' r3).trans' (round_independent _ j2' r3 r3' (swaps_of_streams r3 r3' h3))
+
+/-- some registered complaint was never answered -/
+def unanswered (s : St O) : Bool := s.complaints.any (fun kc => kc.2.received && !kc.2.answerReceived)
+
+/-- the public part of what `End` returns: `none` = failure, otherwise the group key and the public key shares -/
+def pubRes (s : St O) : Option (Bytes × List Bytes) :=
+  if s.disqualified = true ∨ unanswered s = true then none
+  else match s.vA with
+    | none => none
+    | some v => if O.groupKeyIsIdentity v then none else some (O.groupKey v, O.pubShares v)
+
+/-- `End` fails when the public result is a failure; otherwise it returns the public result with the private
+    share, unless that share is zero -/
+theorem endRes_pubRes (s : St O) : endRes s =
+    match pubRes s with
+    | none => .failure
+    | some Yys => if s.x = 0 then .failure else .keys s.x Yys.1 Yys.2 := by
+  rw [endRes_eq]
+  unfold pubRes unanswered
+  by_cases h : s.disqualified = true ∨ (s.complaints.any fun kc => kc.2.received && !kc.2.answerReceived) = true
+  · rw [if_pos h, if_pos h]
+  · rw [if_neg h, if_neg h]
+    cases s.vA with
+    | none => rfl
+    | some v =>
+      simp only []
+      by_cases hi : O.groupKeyIsIdentity v = true
+      · rw [if_pos hi, if_pos hi]
+        simp only []
+        split <;> rfl
+      · rw [if_neg hi, if_neg hi]
+
+theorem pubRes_pubEq {a : St O} {z : St (shadowOps O zme)} (h : PubEq a z) : pubRes a = pubRes z := by
+  unfold pubRes unanswered
+  rw [← h.disq, ← h.tbl, ← h.vA]
+  split
+  · rfl
+  · cases a.vA with
+    | none => rfl
+    | some v => rfl
+
+theorem pubRes_relP {s t : St O} (h : RelP s t) : pubRes s = pubRes t := by
+  unfold pubRes unanswered
+  rcases h with h | h
+  · simp [h.1, h.2]
+  · obtain ⟨_, _, _, _, _, _, g7, _, _, _, _, g12, g13, _, _⟩ := h
+    rw [g13, g7, List.Perm.any_eq g12]
+
+/-- a participant right after `Start` (not the dealer) -/
+def fresh (O : Ops) (size threshold me dealer : Nat) : St O :=
+  { size := size, threshold := threshold, me := me, dealer := dealer, running := true }
+
+/-- the shadow observer right after `Start` -/
+def freshZ (O : Ops) (size threshold zme dealer : Nat) : St (shadowOps O zme) :=
+  { size := size, threshold := threshold, me := zme, dealer := dealer, running := true, xReceived := true }
+
+theorem inv_fresh (size threshold me dealer : Nat) (h : me ≠ dealer) : Inv (fresh O size threshold me dealer) := by
+  refine ⟨h, List.nodup_nil, ?_, ?_, ?_⟩
+  · intro k c hc; cases hc
+  · intro hv; cases hv
+  · intro c hc; cases hc
+
+theorem inv_freshZ (size threshold zme dealer : Nat) (h : zme ≠ dealer) : Inv (freshZ O size threshold zme dealer) := by
+  refine ⟨h, List.nodup_nil, ?_, ?_, ?_⟩
+  · intro k c hc; cases hc
+  · intro hv; cases hv
+  · intro c hc; cases hc
+
+/-- **agreement on the public result**: two honest participants (neither is the dealer) whose shadows were given
+    the same stream of broadcasts per sender in each round — i.e. every broadcast of a third party lands in the same
+    round at both, in the sender's order, and each one's own complaint lands at the other in the round in which
+    it was emitted — leave `End` with the same public result: both fail, or both hold the same group key and the
+    same vector of public key shares. No assumption on the dealer, on the other senders, on the private messages
+    or on the order of deliveries within a round. -/
+theorem agreement_pub (size threshold dealer ma mb : Nat) (hd : dealer < size) (hs : size ≤ 256)
+    (hma : ma < size) (hmb : mb < size) (hmad : ma ≠ dealer) (hmbd : mb ≠ dealer)
+    (ra1 ra2 ra3 rb1 rb2 rb3 : List Dl)
+    (ba1 : ∀ e ∈ ra1, e.sender < size) (ba2 : ∀ e ∈ ra2, e.sender < size) (ba3 : ∀ e ∈ ra3, e.sender < size)
+    (bb1 : ∀ e ∈ rb1, e.sender < size) (bb2 : ∀ e ∈ rb2, e.sender < size) (bb3 : ∀ e ∈ rb3, e.sender < size)
+    (h1 : ∀ c, stream (zR1 (fresh O size threshold ma dealer) ra1) c = stream (zR1 (fresh O size threshold mb dealer) rb1) c)
+    (h2 : ∀ c, stream (zR2 (fresh O size threshold ma dealer) ra1 ra2) c =
+      stream (zR2 (fresh O size threshold mb dealer) rb1 rb2) c)
+    (h3 : ∀ c, stream (zR3 (fresh O size threshold ma dealer) ra1 ra2 ra3) c =
+      stream (zR3 (fresh O size threshold mb dealer) rb1 rb2 rb3) c) :
+    pubRes (final (fresh O size threshold ma dealer) ra1 ra2 ra3) =
+      pubRes (final (fresh O size threshold mb dealer) rb1 rb2 rb3) := by
+  have zi : ZInv (freshZ O size threshold size dealer) :=
+    ⟨rfl, rfl, fun kc hkc => (by cases hkc), Nat.le_refl _, hd, hs⟩
+  have aiA : AInv (fresh O size threshold ma dealer) := ⟨inv_fresh size threshold ma dealer hmad, hma, fun h => by cases h⟩
+  have aiB : AInv (fresh O size threshold mb dealer) := ⟨inv_fresh size threshold mb dealer hmbd, hmb, fun h => by cases h⟩
+  have pA : PubEq (fresh O size threshold ma dealer) (freshZ O size threshold size dealer) :=
+    ⟨rfl, rfl, rfl, rfl, rfl, rfl, rfl, rfl, rfl⟩
+  have pB : PubEq (fresh O size threshold mb dealer) (freshZ O size threshold size dealer) :=
+    ⟨rfl, rfl, rfl, rfl, rfl, rfl, rfl, rfl, rfl⟩
+  have fA := shadow_final aiA zi pA ra1 ra2 ra3 ba1 ba2 ba3
+  have fB := shadow_final aiB zi pB rb1 rb2 rb3 bb1 bb2 bb3
+  have hz : size ≠ dealer := by omega
+  have rel := final_relP (freshZ O size threshold size dealer) (inv_freshZ size threshold size dealer hz) _ _ _ _ _ _ h1 h2 h3
+  rw [pubRes_pubEq fA, pubRes_pubEq fB]
+  exact pubRes_relP rel
+
 end Proofs.DkgAgree
